@@ -503,6 +503,17 @@ impl Prop for EngineAlign {
         if expect_frames > 6000 {
             return Ok(Report::rejected("too-long"));
         }
+        // every third case: the very same lines were converted just before, on this thread, under
+        // another frame rate (the times are in 100 ns units; what they mean in frames depends on the
+        // rate in force at THIS request)
+        if c.labels.len() % 3 == 1 {
+            let mut other = engine.clone();
+            other.condition.set_fperiod(fp * 2 + 1);
+            other.condition.set_sampling_frequency(if rate == 16000 { 22050 } else { 16000 });
+            let _ = other.generator(lines.as_slice());
+            let _ = other.generator(lines.clone());
+            rep.class("same-lines-converted-before-under-another-rate");
+        }
         let g = match engine.generator(lines.as_slice()) {
             Ok(g) => g,
             Err(e) => fail!("generator", "generator failed on well-formed timed labels: {}", e),
